@@ -42,6 +42,8 @@ func Universe() []*vs.ResourceDef {
 		{Group: "ex.io", Version: "v1", Resource: "widgets", Kind: "Widget", Namespaced: true, HasStatus: true},
 		{Group: "other.io", Version: "v1beta1", Resource: "gadgets", Kind: "Gadget", Namespaced: true},
 		{Group: "ex.io", Version: "v1", Resource: "cwidgets", Kind: "CWidget", Namespaced: false},
+		// the same Kind as gadgets, in another API group (core Service next to a CRD called Service, say)
+		{Group: "ex.io", Version: "v1", Resource: "xgadgets", Kind: "Gadget", Namespaced: true},
 		{Group: "metacontroller.k8s.io", Version: "v1alpha1", Resource: "controllerrevisions", Kind: "ControllerRevision", Namespaced: true},
 		{Group: "", Version: "v1", Resource: "namespaces", Kind: "Namespace", Namespaced: false, AllowUnconditionalUpdate: true, NoGeneration: true},
 	}
